@@ -114,6 +114,10 @@ def run(chk, searching=False):
     chk.cov["disagreements_checked"] = nd
     chk.sample({"program": good[-6]["prog"][:8], "lines": [{k: o[k] for k in ("word", "arg", "ok", "changed", "revealed")} for o in good[-6]["lines"][:8]]})
 
+    if chk.tier == "thorough" and not searching:
+        import proto_selftest
+        proto_selftest.run(chk)
+
 
 def search(chk):
     run(chk, searching=True)
